@@ -18,7 +18,7 @@ pub fn meta() -> Meta {
         rule: "generated programs (terminating, endless, error-stopping, interrupt-driven; expressed as source text) x cycle budgets {0, 1, 2, around the halting cycle, random} x interrupt/reset multisets (duplicates, cycle 0, the last cycle, beyond the end, both at the same cycle) x machine configurations; library: RunnerConfig::run() must equal (full Machine equality) the harness's own stepping of the statement's loop and report the number of edges issued; RunExpectations::verify over all 8 expectation subsets x matching/mismatching values; CLI: `2a-emulator run ... [verify ...]` with numbers rendered in all three radices: printed Cycles/State/FE/FF and the exit status must follow from the same stepping; unreadable / invalid files and failing verification must exit non-zero, everything else zero. distinct_nontrivial counts distinct (final state, budget class, #interrupts, #resets, halted-early?) classes",
         exhaustive: false,
         assumptions: vec!["interrupt before reset when both are scheduled for the same cycle (order of the statement)", "the program is translated with the real parser/translator (C02/C03 own those)"],
-        floors: vec![("library_runs", 5_000), ("runs_halting_early", 500), ("runs_with_interrupts_taken", 200), ("verify_checks", 40_000), ("cli_runs", 60), ("cli_verify_failures_expected", 10), ("cli_bad_files", 4)],
+        floors: vec![("library_runs", 5_000), ("runs_halting_early", 500), ("runs_with_interrupts_taken", 200), ("verify_checks", 40_000), ("cli_runs", 60), ("cli_verify_failures_expected", 10), ("cli_bad_files", 8)],
     }
 }
 
@@ -391,7 +391,13 @@ fn check_cli(ctx: &Ctx, c: &Case, tag: &str, rng: &mut Rng, rep: &mut Report) ->
     let _ = std::fs::create_dir_all(&dir);
     let path = dir.join(format!("p-{}.asm", tag));
     std::fs::write(&path, &c.text).ok()?;
-    let mut args: Vec<String> = vec!["run".into()];
+    let mut args: Vec<String> = vec![];
+    match rng.below(6) {
+        0 => args.push("-v".into()),
+        1 => args.push("-vvvv".into()),
+        _ => {}
+    }
+    args.push("run".into());
     let flagnames = ["--j1", "--j2", "--uio1", "--uio2", "--uio3"];
     for (i, f) in flagnames.iter().enumerate() {
         if c.flags[i] {
@@ -496,12 +502,20 @@ fn check_cli_bad_files(ctx: &Ctx, rep: &mut Report) -> Option<(String, String)> 
     let good = dir.join("good.asm");
     std::fs::write(&good, "#! mrasm\n NOP\n STOP\n").ok()?;
     let missing = dir.join("does-not-exist.asm");
+    let latin1 = dir.join("latin1.asm");
+    std::fs::write(&latin1, b"#! mrasm\n NOP ; gr\xfc\xdfe\n STOP\n").ok()?;
+    let adir = dir.join("a-directory.asm");
+    let _ = std::fs::create_dir_all(&adir);
     let run = |args: &[&str]| Command::new(emu).args(args).env("TMPDIR", &dir).env("NO_COLOR", "1").stdin(Stdio::null()).stdout(Stdio::piped()).stderr(Stdio::piped()).output().ok().and_then(|o| o.status.code());
     let cases: Vec<(Vec<String>, bool)> = vec![
         (vec!["run".into(), bad.to_string_lossy().into(), "10".into()], false),
         (vec!["run".into(), missing.to_string_lossy().into(), "10".into()], false),
         (vec!["verify".into(), bad.to_string_lossy().into()], false),
         (vec!["verify".into(), missing.to_string_lossy().into()], false),
+        (vec!["run".into(), latin1.to_string_lossy().into(), "10".into()], false),
+        (vec!["verify".into(), latin1.to_string_lossy().into()], false),
+        (vec!["run".into(), adir.to_string_lossy().into(), "10".into()], false),
+        (vec!["-vv".into(), "run".into(), good.to_string_lossy().into(), "10".into()], true),
         (vec!["verify".into(), good.to_string_lossy().into()], true),
         (vec!["run".into(), good.to_string_lossy().into(), "10".into()], true),
     ];
